@@ -404,6 +404,15 @@ fn set_from_json(v: &Value) -> Vec<RouteSpec> {
     }).collect()
 }
 
+/// The same set with the params of every route but the first written under another name (`:q`): a param segment matches by
+/// position, whatever it is called - `/users/:id` and `/users/:user/posts` share one param node.  (Pairs only.)
+fn check_renamed(ctx: &mut Ctx, set: &[RouteSpec], all_orders: bool) {
+    if set.len() != 2 || set.iter().filter(|r| r.segs.iter().any(|s| is_param(s))).count() < 2 { return }
+    let mut renamed: Vec<RouteSpec> = set.to_vec();
+    for r in renamed[1..].iter_mut() { for s in r.segs.iter_mut() { if is_param(s) { *s = ":q".to_string() } } }
+    check_set(ctx, &renamed, all_orders, None);
+}
+
 pub fn run(ctx: &mut Ctx) {
     app::pin_clock();
     let quick = ctx.quick();
@@ -434,6 +443,7 @@ pub fn run(ctx: &mut Ctx) {
                 if !ctx.mine() { continue }
                 if ctx.out_of_time() { break }
                 check_set(ctx, &set, !quick, None);
+                check_renamed(ctx, &set, !quick);
             }
         }
     }
@@ -448,6 +458,7 @@ pub fn run(ctx: &mut Ctx) {
                 if !done_sets.insert(key) { continue }
                 if !ctx.mine() { continue }
                 check_set(ctx, &set, false, None);
+                check_renamed(ctx, &set, false);
             }
         } } } }
     }
